@@ -49,7 +49,7 @@ def _eval_chunk(args):
 
 
 def run_enum(prop, tier, evalref, cases, *, rule, assumptions=(), chunk=32, level='exploration',
-             subproducts=None, extra_cov=None, dims=None, engine='enum', min_classes=2, reporter=None):
+             subproducts=None, extra_cov=None, dims=None, engine='enum', min_classes=2, reporter=None, class_guard=None):
     """evalref: 'module:function'; function(case) -> (violations, klass, n_evaluations).
     klass: hashable label of the behaviour class the case exercised (None = trivial)."""
     rep = reporter or Reporter(prop, tier, engine)
@@ -74,6 +74,11 @@ def run_enum(prop, tier, evalref, cases, *, rule, assumptions=(), chunk=32, leve
             i += 1
     if len(classes) < min_classes and rep.n_viol == 0 and not rep.known_hits:
         raise HarnessError(f'vacuous enumeration: only {len(classes)} distinct non-trivial classes')
+    guard_cov = None
+    if class_guard is not None:
+        problems, guard_cov = class_guard(classes)
+        if problems and rep.n_viol == 0 and not rep.known_hits:
+            raise HarnessError('vacuous enumeration: ' + '; '.join(problems[:6]))
     cov = {
         'evaluations': evaluations, 'distinct_nontrivial': len(classes),
         'cases': len(cases), 'rule': rule, 'exhaustive': True,
@@ -90,6 +95,8 @@ def run_enum(prop, tier, evalref, cases, *, rule, assumptions=(), chunk=32, leve
         cov['dimensions'] = {k: len(v) for k, v in dims.items()}
     if extra_cov:
         cov.update(extra_cov)
+    if guard_cov:
+        cov.update(guard_cov)
     return rep.finish(level, cov, assumptions)
 
 
